@@ -53,6 +53,26 @@ names = [
    model of every configuration is instantiated with and that all theorems above talk about (bcount, start_mask,
    next_linear / next_tri, cc_base / cc_open, sh_base / sh_open).  A change of any of these C++ functions changes the
    regenerated Gallina and breaks this proof."""),
+ ('growth_decision_is_source', """T-gen tie of the growth decision.  HashSet::pvGetNewLogBucketCount, the size loop of pvAddGrow (7a001ad) with its
+   length_error bound (f76c2d4) and the resulting mCapacity / bucket-array size are regenerated from HashSet.h on every run
+   (Gen_HashSetGrow.v; traits object, bucket arrays and memory manager are abstract).  Whenever the hand model's `hadd`
+   chooses the table size 2^r (grow_log, any fuel) with r <= 63, the GENERATED loop chooses the same r and the same
+   capacity."""),
+ ('reserve_decision_is_source', "the same for the size loop of Reserve and the hand model's reserve_log."),
+ ('size_loops_throw_only_beyond_2_63', "the fuel / RCheck branch of the hand model as a theorem about the generated loop: with its 70 units of fuel it never runs out of fuel, and it throws std::length_error (f76c2d4) exactly when no table of at most 2^63 buckets has a capacity above mCount."),
+ ('gen_new_log_head', "generated pvGetNewLogBucketCount = the hand model's newLog (and it is the MOMO_CHECK(shift > 0) that fails, `Stuck`, when GetBucketCountShift answers 0)."),
+ ('gen_new_log_empty', "... and = GetLogStartBucketCount() for a bucket-less container."),
+ ('refused_insert_full_iff_generated_IsFull_o2', """the "Hash table is full" clause down to the bytes, BucketOpen2N2<3>: whenever the bytes of the buckets of the real
+   newest table represent the model table (byte invariant of C13's BucketOps + count bits = number of items, preserved by the
+   GENERATED AddCrt / Remove / pvSetEmpty: o2_add, o2_remove, o2_empty), an insertion under refused growth answers "Hash table
+   is full" exactly when the GENERATED IsFull -- the test pvAddNogrow performs -- is true on every bucket."""),
+ ('refused_insert_full_iff_generated_IsFull_n1', "the same for BucketOpenN1<maxCount, reverse> (BucketOpen8 = maxCount 7, reverse false)."),
+ ('o2_full_agrees', "generated BucketOpen2N2::IsFull on the bytes = the model's isFull (maxCount <= number of items) under the abstraction relation."),
+ ('o2_add', "generated AddCrt keeps the abstraction relation (one more item)."),
+ ('o2_remove', "generated Remove keeps the abstraction relation (one item less)."),
+ ('n1_full_agrees', "generated BucketOpenN1::IsFull = the model's isFull, for every maxCount 1..7 and both layouts."),
+ ('n1_add', "generated BucketOpenN1::AddCrt keeps the abstraction relation."),
+ ('n1_remove', "generated BucketOpenN1::Remove keeps the abstraction relation."),
  ('same_code_open2n2_policy', "HashBucketOpen2N2<1> and HashBucketOpen2N2<3> translate to the same Gallina (maxCount is a Section variable): one proof covers all instantiations."),
  ('same_code_open_index', "BucketOpen8 and BucketOpen2N2 have the same GetNextBucketIndex."),
  ('concrete_kind_ok', "the hypotheses kind_ok hold for the concrete kinds used by the extracted model (mask start index, linear and triangular probing, exact max-probe bound, both growth policies)."),
@@ -66,7 +86,7 @@ names = [
  ('ex_refused_until_full', "non-vacuity: with every growth refused a 2-bucket Open2N2<3> table accepts insertions up to 6 items through the fallback path, then reports full."),
 ]
 hdr = '''From Coq Require Import ZArith List Bool Permutation.
-From C11 Require Import GrowModel GenTie.
+From C11 Require Import GrowModel GenTie GenGrow GenFull.
 Import ListNotations.
 Local Open Scope Z_scope.
 Set Printing Width 130.
@@ -85,7 +105,7 @@ res = '''(* Property C11 -- theorems only.  Each is closed by `exact <lemma>` an
    UpdateMaxProbe never under-approximates, the growth policy does not shrink / probing reaches every bucket,
    CalcCapacity <= physical size); they are proved below for the kinds used by the extracted model. *)
 From Coq Require Import ZArith List Bool Permutation.
-From C11 Require Import GrowModel GenTie.
+From C11 Require Import GrowModel GenTie GenGrow GenFull.
 Import ListNotations.
 Local Open Scope Z_scope.
 
